@@ -15,7 +15,7 @@ META = {
 }
 
 TLC_FIELDS = ("src", "x", "v", "p", "n", "acc", "nprog", "r")
-ALL_EXTS = '{"policies","san","ian","nc","aia","crldp","qc","tor","cabforg","sctlist","bc","skid","akid","ku","eku","subject"}'
+ALL_EXTS = '{"names","policies","san","ian","nc","aia","crldp","qc","tor","cabforg","sctlist","bc","skid","akid","ku","eku","subject"}'
 
 
 def judge(ctx, recs, nest, depth, label):
@@ -57,13 +57,17 @@ def candidates_from(recs, rejects):
             ws = [b for b in ws if b["same"] == "differs"]
             fail, site = "json-differs", ""
         elif reason == "outcome":
-            ws = [b for b in ws if b["o"] not in ("ok", "err", "skip")]
+            ws = [b for b in ws if b["o"] not in ("ok", "err", "skip", "notrun")]
             if ws:
                 b = ws[0]
                 fail = ("panic: " + b.get("msg", "")) if b["o"] == "panic" else b["o"]
                 site = b.get("site", "")
+                if b["o"] == "timeout":
+                    site = ""
             else:
                 fail, site = "outcome:" + ",".join(r["os"]), ""
+        elif reason == "time":
+            fail, site = "timeout", ""
         else:
             fail, site = reason, ""
         sig = {"op": r["op"], "arg": r["a"], "fail": fail, "site": site, "src": rec["src"],
@@ -156,18 +160,31 @@ def run(ctx):
 
     def shard(i):
         out = ctx.path("certops_%d.ndjson" % i)
-        p = ctx.run(binary, ["run", cmodel, model, progfile, out, str(i), str(nshards)], timeout=7200)
+        # wall budget inside the harness (it then stops with what it has); outer timeout = backstop
+        budget = 900 if quick else 9000
+        p = ctx.run(binary, ["run", cmodel, model, progfile, out, str(i), str(nshards)], timeout=budget + 1800,
+                    env={"VERIF_C02_BUDGET_S": str(budget)})
         _, st = ctx.harness_output(p)
         return out, st
     stats = collections.Counter()
+    banned = set()
     recs = []
     for out, st in C01.par(ctx, shard, list(range(nshards)), nshards):
         recs += read_ndjson(out)
         for k, v in st.items():
             if isinstance(v, int):
                 stats[k] += v
+            elif k == "banned":
+                banned.update(v)
     ctx.log("harness: %s" % dict(stats))
-    if stats["shapes"] != cm["nshapes"]:
+    incomplete = stats["budget_cut"] > 0
+    if incomplete:
+        ctx.note("wall budget of the operation stage exhausted in %d shard(s); going on with the observations gathered so far" %
+                 stats["budget_cut"])
+    if stats["calls_not_run"]:
+        ctx.note("%d operations were not applied: %s hung / killed the worker 3 times and was no longer applied" %
+                 (stats["calls_not_run"], ", ".join(sorted(banned))))
+    if not incomplete and stats["shapes"] != cm["nshapes"]:
         raise Machinery("harness built %d shape certificates, the model has %d shapes" % (stats["shapes"], cm["nshapes"]))
     shapes_acc = sum(1 for r in recs if r["src"] == "shape" and r["acc"] > 0)
     muts_acc = sum(1 for r in recs if r["src"] == "mut" and r["acc"] > 0)
@@ -207,7 +224,14 @@ def run(ctx):
     lookup = {json.dumps(b["sig"], sort_keys=True): ok for b, ok in zip(bodies, again)}
     ctx.candidates(binary, bodies, reproduce=lambda path, body: lookup.get(json.dumps(body["sig"], sort_keys=True), False), limit=80)
 
-    if not quick:
+    confirmed = set(b["sig"].get("op") for b, ok in zip(bodies, again) if ok)
+    if stats["calls_not_run"] and not banned <= confirmed:
+        ctx.problem("%d operations were skipped after repeated hangs / worker deaths of %s, but that was not reproduced in a "
+                    "fresh process: the run cannot vouch" % (stats["calls_not_run"], ", ".join(sorted(banned - confirmed))))
+    if incomplete and ctx.violations == 0:
+        ctx.problem("the operation stage was cut by its wall budget and no violation was found: the run cannot vouch")
+
+    if not quick and not incomplete:
         selftest(ctx, recs, nest, depth)
 
 
